@@ -251,10 +251,15 @@ theorem immutableField_subclass_rejected (fw : List FieldCls) (name b : String) 
     have : tail.any (sealedFieldCls fw) = true := List.any_eq_true.mpr ⟨b, hsub.subset hb, hs⟩
     exact ⟨.typeErr, by simp [this]⟩
 
-/-- a class whose direct bases include AbstractStructure cannot be instantiated -/
+/-- C14 (abstract): AbstractStructure itself and every class whose direct bases include it cannot
+    be instantiated, whatever the arguments -/
 theorem abstract_not_instantiable (O : Oracles) (c : ClassDef) (kw : List (String × PyVal))
-    (h : "AbstractStructure" ∈ c.bases) : instantiate O c kw = .error .typeErr := by
-  have : c.bases.contains "AbstractStructure" = true := by simpa using h
+    (h : c.name = "AbstractStructure" ∨ "AbstractStructure" ∈ c.bases) :
+    instantiate O c kw = .error .typeErr := by
+  have : (c.name == "AbstractStructure" || c.bases.contains "AbstractStructure") = true := by
+    rcases h with h | h
+    · simp [h]
+    · simp [h]
   unfold instantiate
   rw [if_pos this]
 
@@ -262,13 +267,7 @@ theorem abstract_subclass_not_instantiable {O : Oracles} {w : World} {src : Clas
     (h : defineClass O w src = .ok cd) (hb : "AbstractStructure" ∈ src.bases)
     (kw : List (String × PyVal)) : instantiate O cd kw = .error .typeErr := by
   rcases defineClass_ok h with ⟨_, rfl⟩
-  exact abstract_not_instantiable O _ kw hb
-
-/-- "AbstractStructure cannot be instantiated directly": false of the code for the class
-    AbstractStructure itself -/
-def abstract_statement : Prop :=
-  ∀ (O : Oracles) (c : ClassDef) (kw : List (String × PyVal)),
-    (c.name = "AbstractStructure" ∨ "AbstractStructure" ∈ c.bases) → isError (instantiate O c kw) = true
+  exact abstract_not_instantiable O _ kw (Or.inr hb)
 
 /-! ### kernel-checked counterexamples (the known findings) and non-vacuity -/
 
@@ -301,16 +300,11 @@ theorem fault_rejected_statement_false : ¬ fault_rejected_statement := by
   rw [he] at this
   cases this
 
-/-- finding `abstract-instantiable:AbstractStructure`: `AbstractStructure()` returns an instance -/
-theorem abstractStructure_itself_instantiates :
-    isError (instantiate exO (World.builtin "AbstractStructure" ["Structure"] false) []) = false := by
+/-- fixed finding `abstract-instantiable:AbstractStructure` (df54aff): `AbstractStructure()`
+    raises TypeError -/
+theorem abstractStructure_itself_not_instantiable :
+    isError (instantiate exO (World.builtin "AbstractStructure" ["Structure"] false) []) = true := by
   decide
-
-theorem abstract_statement_false : ¬ abstract_statement := by
-  intro h
-  have := h exO (World.builtin "AbstractStructure" ["Structure"] false) [] (Or.inl rfl)
-  rw [abstractStructure_itself_instantiates] at this
-  cases this
 
 def reqOf (w : World) (n : String) : List String :=
   match w.find n with
